@@ -22,7 +22,9 @@ ASSUMPTIONS = ["reference model vf/props/C09.py:Model (sorted list by (prio, "
                "priorities are ints/floats without NaN"]
 MIN_COUNTERS = {'ops_compared': 1000, 'invariant_evals': 1000,
                 'score_histories': 5, 'atexit_histories': 3, 'clock_histories': 40,
-                'clock_wakeups_compared': 100}
+                'clock_wakeups_compared': 100, 'nrt_clock_histories': 300,
+                'clock_histories_moved_after_self_reschedule': 20,
+                'score_identical_bundles': 20}
 
 
 def plan(tier, seed):
@@ -42,6 +44,14 @@ def plan(tier, seed):
     for p, ck in enumerate(['SystemClock', 'TempoClock']):   # AppClock batches expired items by design
         shards.append({'name': f'clock-{ck}', 'mode': 'rt', 'kind': 'clockuser', 'clock': ck,
                        'first_case': 0, 'n': 60 if tier == 'quick' else 1200,
+                       'secs': 40 if tier == 'quick' else 560, 'hard_timeout': 700})
+    # the non-real-time scheduler as a user of the queue (same histories; the
+    # scheduler keeps one entry per clock and task, so a task that is scheduled
+    # again while pending - also after it re-scheduled itself - must move)
+    for p, ck in enumerate(['SystemClock', 'TempoClock', 'AppClock']):
+        shards.append({'name': f'nrtclock-{ck}', 'mode': 'nrt', 'kind': 'clockuser',
+                       'clock': ck, 'nrt': True, 'first_case': 0,
+                       'n': 400 if tier == 'quick' else 60000,
                        'secs': 40 if tier == 'quick' else 560, 'hard_timeout': 700})
     # exit actions: one shutdown per process
     for p in range(4 if tier == 'quick' else 16):
@@ -310,8 +320,15 @@ def run_clockuser(spec, acc):
     from sc3.base import clock as clk
     from sc3.base.functions import Function
     ck = spec['shard']['clock']
+    nrt = bool(spec['shard'].get('nrt'))
+    label = ('nrt-' if nrt else '') + ck
+    t_stop = _time.time() + spec['shard']['secs']
     for i in iter_cases(spec):
-        rng = case_rng(spec['seed'], 'C09', 'clockuser' + ck, i)
+        if _time.time() > t_stop:
+            break
+        rng = case_rng(spec['seed'], 'C09', 'clockuser' + label, i)
+        if nrt:
+            main.reset()
         clock = {'SystemClock': clk.SystemClock, 'AppClock': clk.AppClock}.get(ck)
         if clock is None:
             clock = clk.TempoClock(rng.choice([1, 2, 4]))
@@ -323,8 +340,12 @@ def run_clockuser(spec, acc):
             x = rng.random()
             if x < 0.45:
                 actions[k] = ('move', rng.randrange(n), rng.randint(0, 4))
-            elif x < 0.55 and ck != 'AppClock':
-                actions[k] = ('clear',)
+            elif x < 0.55 and ck != 'AppClock' and not nrt:
+                actions[k] = ('clear',)         # (a no-op in non real time)
+        # items that keep themselves going once: the first wake-up returns a delta
+        rep = {k: rng.randint(1, 3) for k in range(n) if rng.random() < 0.3}
+        nwakes = {}
+        exact = nrt or ck != 'AppClock'
         woke = []
         done = threading.Event()
         items = []
@@ -334,6 +355,7 @@ def run_clockuser(spec, acc):
             def f(item, c):
                 now = c.beats if ck == 'TempoClock' else c.seconds
                 woke.append((k, now))
+                nwakes[k] = nwakes.get(k, 0) + 1
                 a = actions.get(k)
                 if a and a[0] == 'move':
                     t = now + a[2] * step
@@ -343,6 +365,8 @@ def run_clockuser(spec, acc):
                         c.sched_abs(t, items[a[1]])
                 elif a and a[0] == 'clear':
                     c.clear()
+                if k in rep and nwakes[k] == 1:
+                    return rep[k] * step
             return Function(f)
         items.extend(mk(k) for k in range(n))
 
@@ -360,33 +384,54 @@ def run_clockuser(spec, acc):
             model.add(slots[k], k)
         exp = []
         guard = 0
+        mw = {}
+        moved_after_repeat = 0
         while not model.empty() and guard < 200:
             guard += 1
             t, k = model.pop()
             exp.append((k, t))
+            mw[k] = mw.get(k, 0) + 1
             a = actions.get(k)
             if a and a[0] == 'move':
+                if a[1] in rep and mw.get(a[1], 0) == 1 and a[1] != k and \
+                        any(x == a[1] for _, x in model.iterate()):
+                    moved_after_repeat += 1
                 model.add(t + a[2], a[1])
             elif a and a[0] == 'clear':
                 model.clear()
-        if guard >= 200 or ck == 'AppClock' and any(
-                a[0] == 'move' and a[2] == 0 for a in actions.values()):
+            if k in rep and mw[k] == 1:
+                # the returned delta re-inserts the item after its wake-up
+                model.add(t + rep[k], k)
+        if guard >= 200 or not exact and (rep or any(
+                a[0] == 'move' and a[2] == 0 for a in actions.values())):
             continue      # endless ping-pong at one instant / physical-time ties: skip
         if ck == 'AppClock' and len(set(slots)) < len(slots):
             # AppClock keys on the physical present: equal slots are not exact ties
             pass
         clock.sched(0, Function(setup))
-        t_end = _time.time() + 10
-        while _time.time() < t_end and len(woke) < len(exp):
-            _time.sleep(0.01)
-        _time.sleep(max(0.05, 6 * step))
+        if nrt:
+            try:
+                main.process()
+            except Exception as e:
+                acc.violation(f'C09/clock-user/{label}/process-raised/{type(e).__name__}',
+                              {'case': i, 'slots': slots, 'tb': short_tb(e),
+                               'actions': {str(k): v for k, v in actions.items()}})
+                continue
+        else:
+            t_end = _time.time() + 10
+            while _time.time() < t_end and len(woke) < len(exp):
+                _time.sleep(0.01)
+            _time.sleep(max(0.05, 6 * step))
         with main._main_lock:
             got = list(woke)
-        acc.count('clock_histories')
-        acc.count('clock_wakeups_compared', len(exp))
+        acc.count('nrt_clock_histories' if nrt else 'clock_histories')
+        acc.count('nrt_clock_wakeups_compared' if nrt else 'clock_wakeups_compared',
+                  len(exp))
+        acc.count('clock_histories_moved_after_self_reschedule', int(moved_after_repeat > 0))
         moved_pending = sum(1 for a in actions.values() if a[0] == 'move')
-        acc.case(h64((ck, slots, sorted(actions.items()))), nontrivial=moved_pending > 0)
-        if ck == 'AppClock':
+        acc.case(h64((label, slots, sorted(actions.items()), sorted(rep.items()))),
+                 nontrivial=moved_pending > 0)
+        if not exact:
             # drifting clock: compare the multiset and per-item counts only
             okay = sorted(k for k, _ in got) == sorted(k for k, _ in exp)
         else:
@@ -400,16 +445,17 @@ def run_clockuser(spec, acc):
                 what = 'item-awakened-although-moved-or-cleared'
             elif sorted(gk) == sorted(ek):
                 what = 'order-or-time-differs'
-            acc.violation(f'C09/clock-user/{ck}/{what}',
-                          {'case': i, 'slots': slots, 'actions': {str(k): v for k, v in actions.items()},
+            acc.violation(f'C09/clock-user/{label}/{what}',
+                          {'case': i, 'slots': slots, 'repeat': {str(k): v for k, v in rep.items()},
+                           'actions': {str(k): v for k, v in actions.items()},
                            'expected': exp, 'got': [(k, None if base[0] is None else
                                                      round((t - base[0]) / step, 6))
                                                     for k, t in got]})
         elif acc.want_sample() and moved_pending:
-            acc.sample({'case': i, 'clock': ck, 'slots': slots,
+            acc.sample({'case': i, 'clock': label, 'slots': slots, 'repeat': {str(k): v for k, v in rep.items()},
                         'actions': {str(k): v for k, v in actions.items()},
                         'wakeups': exp})
-        if ck == 'TempoClock':
+        if ck == 'TempoClock' and not nrt:
             clock.stop()
 
 
@@ -474,11 +520,19 @@ def run_score(spec, acc, Q):
             n = rng.randint(1, 40)
             times = [rng.choice([0.0, 0.5, 1.0, 1.0, 2.0, 2.5, rng.random() * 3])
                      for _ in range(n)]
-            entries = [(0.0, -1)]      # OscScore starts with the root node
+            entries = [(0.0, -1, -1)]      # OscScore starts with the root node
+            # payload values repeat: bundles that are byte-identical (same time,
+            # same message) are still separate entries, each kept, in send order
+            npay = rng.choice([1, 2, 3, n + 5])
+            seen = set()
             for k, t in enumerate(times):
-                msg = ['/m', k]
+                v = rng.randrange(npay)
+                msg = ['/m', v]
                 score.add([t, msg])
-                entries.append((t, k))
+                entries.append((t, k, v))
+                if (t, v) in seen:
+                    acc.count('score_identical_bundles')
+                seen.add((t, v))
             exp = sorted(entries, key=lambda e: (e[0], e[1]))
             try:
                 dur = score.duration
@@ -489,15 +543,17 @@ def run_score(spec, acc, Q):
                 score.finish(tail)     # outside routines: absolute time
                 lst = score.list
                 # the closing marker is placed tailtime after the latest entry
-                exp = sorted(entries + [(max(times + [0.0]) + tail, 10**6)],
+                exp = sorted(entries + [(max(times + [0.0]) + tail, 10**6, 10**6)],
                              key=lambda e: (e[0], e[1]))
+                exp = [(e[0], e[2]) for e in exp]
                 got = [(b[0], -1 if b[1][0] == '/g_new' else
                         10**6 if b[1][0] == '/c_set' else b[1][1])
                        for b in lst]
                 if got != exp:
-                    acc.violation('C09/score-order',
+                    acc.violation('C09/score-order' if len(got) == len(exp)
+                                  else 'C09/score-entry-count-differs',
                                   {'case': i, 'times': times, 'tail': tail,
-                                   'got': got})
+                                   'got': got, 'expected': exp})
             except InvariantBroken as e:
                 acc.violation('C09/score-invariant', {'case': i, 'why': str(e)[:200]})
             except Exception as e:
